@@ -196,6 +196,8 @@ PROPS = {
             # a raw peer that reads slowly (blocks larger than a yamux window: back-pressure on the
             # server half's sink) or drops the node's streams
             S("simraw", ["--cases", 150], ["--cases", 10000]),
+            # real nodes exchanging 400 kB blocks: back-pressure on the server half's sink between beetswap nodes
+            S("simbig", ["--cases", 80], ["--cases", 3000, "--nodes", 4]),
         ],
     ),
     "C07": dict(
